@@ -491,6 +491,11 @@ func (t *transport) lineEngine(engineCtx context.Context, g *genWG, conn net.Con
 		select {
 		case req := <-sendReqCh:
 			err := t.runSend(engineCtx, line, req, sink)
+			if engineCtx.Err() != nil && errors.Is(err, context.Canceled) {
+				// The send was interrupted by the end of this generation (engineCtx is the generation's
+				// context; the caller's is not threaded down here): report that, not a cancellation.
+				err = hsms.ErrConnClosed
+			}
 			// req.done is BUFFERED cap 1 (G-C) — this never blocks even if the Write goroutine has
 			// already abandoned the wait via genDone.
 			req.done <- err
